@@ -55,6 +55,26 @@ def main():
         sys.exit(chk.finish())
 
 
+def generic_replay(chk):
+    """Drivers without their own replay support: the recorded trace of a VIOLATION file (the execution of rig
+    exactly as it was observed, inputs included) is judged again by TLC against the current specification, and the
+    failing clauses are printed.  (Drivers with replay support re-execute rig on the recorded input instead.)"""
+    import json
+    with open(chk.replay_path) as f:
+        rp = json.load(f)["replay"]
+    if "trace" not in rp:
+        raise MachineryError("%s carries no recorded trace" % chk.replay_path)
+    chk.rule = "re-validation of the trace recorded in %s" % chk.replay_path
+    chk.note_case(rp["trace"])
+    chk.sample(str(rp["trace"])[:400])
+    rej = chk.validate(rp["module"], rp["cfg"], [rp["trace"]], workers=1,
+                       key_of=lambda tr, i, cl: "replayed: event %d clauses %s" % (i, ",".join(cl)))
+    for tr, i, cl in rej:
+        print("REPLAY: rejected at event %d by clauses %s" % (i, cl))
+    if not rej:
+        print("REPLAY: the recorded trace is accepted by the current specification")
+
+
 def _run(chk, pid, tier, seed):
     try:
         try:
@@ -67,7 +87,10 @@ def _run(chk, pid, tier, seed):
             chk.violation("import", "cannot import rig for %s: %r" % (pid, ex),
                           dict(traceback=traceback.format_exc()))
             sys.exit(chk.finish())
-        mod.run(chk)
+        if chk.replay_path and "replay_path" not in open(mod.__file__).read():
+            generic_replay(chk)
+        else:
+            mod.run(chk)
         rc = chk.finish()
     except MachineryError as ex:
         print("MACHINERY-ERROR %s: %s" % (pid, ex))
